@@ -263,6 +263,60 @@ def check(ctx: Ctx) -> list[RuleResult]:
     if r4.instances < 2:
         raise AnalysisError("Frame._ctx: fewer than 2 code-specific context definitions found")
     out.append(r4)
+    # ---- R5 ---------------------------------------------------------------------------
+    # The complete decision table of WantRply.pkt_rcvd (predeval.py): a packet is accepted as the reply (set_state(..., result=pkt))
+    # exactly when its header equals the command's reply header, or it is the enumerated 0418 null-entry (reply header 0418|RP|,
+    # headers equal up to the last two characters, the literal null payload). Both directions are read off the table:
+    # nothing else is accepted (soundness) and those two are always accepted (the proper reply is recognised).
+    from ..predeval import PredEval, Unsupported
+
+    r5 = RuleResult("R5", "reply acceptance table", "WantRply.pkt_rcvd accepts exactly: header == rx_header, or the 0418 null-entry exception", min_instances=2)
+    wr = repo.func(f"{F}.WantRply.pkt_rcvd")
+    NULL0418 = "000000B0000000000000000000007FFFFF7000000000"
+    try:
+        tab = PredEval(ctx, wr, domains={"self._sent_cmd.rx_header[:8]": ["0418|RP|"], "pkt.payload": [NULL0418]}).table()
+    except Unsupported as err:
+        raise AnalysisError(f"WantRply.pkt_rcvd is not a decision procedure the evaluator understands: {err}") from err
+
+    def find_atom(pred) -> "str | None":
+        return next((a for a in tab.atoms if pred(a)), None)
+
+    ne = find_atom(lambda a: a.replace(" ", "") in ("pkt._hdr!=self._sent_cmd.rx_header", "self._sent_cmd.rx_header!=pkt._hdr"))
+    eq = find_atom(lambda a: a.replace(" ", "") in ("pkt._hdr==self._sent_cmd.rx_header", "self._sent_cmd.rx_header==pkt._hdr"))
+    pre = find_atom(lambda a: "[:-2]" in a and "rx_header" in a and "pkt._hdr" in a and ("==" in a or "!=" in a))
+    pre_neg = pre is not None and "!=" in pre
+    echo = find_atom(lambda a: "tx_header" in a and "pkt._hdr" in a and "==" in a)
+    if ne is None and eq is None:
+        raise AnalysisError(f"WantRply.pkt_rcvd: no test of pkt._hdr against rx_header found (atoms: {tab.atoms})")
+
+    def hdr_equal(a: dict) -> bool:
+        return (not a[ne]) if ne is not None else bool(a[eq])
+
+    def is_null_entry(a: dict) -> bool:
+        return a.get("self._sent_cmd.rx_header[:8]") == "0418|RP|" and a.get("pkt.payload") == NULL0418 and (pre is None or (bool(a[pre]) != pre_neg))
+
+    def accepted(a: dict) -> bool:
+        return any("set_state(" in e and "result=pkt" in e.replace(" ", "") for e in a["__effects__"])
+
+    rows = tab.rows
+    r5.instances += 1
+    r5.nontrivial += 1
+    wrong = [a for a, _r in rows if accepted(a) and not hdr_equal(a) and not (is_null_entry(a) and pre is not None)]
+    if wrong:
+        a0 = wrong[0]
+        r5.fail(f"{wr.short}:accepts-non-reply", wr.loc(), "a packet whose header differs from the command's reply header is accepted as its reply outside the 0418 null-entry exception: " + tab.describe({k: v for k, v in a0.items() if k != "__effects__"})[:300])
+    else:
+        r5.ok({"accepted_only": "header == rx_header | 0418 null-entry (headers equal up to the idx, literal null payload)", "rows": len(rows)})
+    r5.instances += 1
+    r5.nontrivial += 1
+    lost = [a for a, _r in rows if not accepted(a) and (hdr_equal(a) or (is_null_entry(a) and not hdr_equal(a))) and not (echo is not None and a[echo])]
+    if lost:
+        a0 = lost[0]
+        what = "the reply whose header equals rx_header" if hdr_equal(a0) else "the 0418 null-entry reply (sent for a log_idx beyond the end of the log)"
+        r5.fail(f"{wr.short}:proper-reply-ignored:{'header-equal' if hdr_equal(a0) else '0418-null-entry'}", wr.loc(), f"{what} is not accepted: the command is retried and fails although the device answered: " + tab.describe({k: v for k, v in a0.items() if k != "__effects__"})[:300])
+    else:
+        r5.ok({"always_accepted": "header == rx_header; the 0418 null-entry", "rows": len(rows)})
+    out.append(r5)
     return out
 
 
